@@ -1,8 +1,8 @@
 SPECIFICATION Spec
 CONSTANTS
-  Vals = {0, 2, 3, 8, 12, 16, 24, 32, 48, 64, 160, 384, 1280}
-  JVals = {0, 2, 3, 16, 24, 40, 384}
-  KVals = {0, 2, 3, 8, 12, 16, 24, 40, 96, 384}
+  Vals = {0, 2, 3, 8, 12, 24, 32, 64, 160, 1280}
+  JVals = {0, 2, 3, 16, 40, 384}
+  KVals = {0, 2, 3, 8, 16, 24, 40, 96}
 INVARIANT C20_Nominal
 INVARIANT C20_GradJac
 INVARIANT C20_KKT
